@@ -328,6 +328,7 @@ class Interp:
         self.unknown: list[str] = []
         self.patterns: dict = {}
         self.recording = True
+        self.called: set[str] = set()
 
     # ------------------------------------------------------------------ heap
     def node(self, key, make):
@@ -1689,6 +1690,7 @@ class Interp:
             if not impls:
                 return self.unknown_value(f"abstract {fi.qualname}", *args)
             return join(*[self.call_function(m, args, kwargs, fr, e, bound, closure, star) for m in impls])
+        self.called.add(fi.fq)
         node = fi.node
         a = node.args
         env: dict[str, AV] = dict(closure) if closure else {}
